@@ -151,6 +151,15 @@ Fixpoint assoc_remove {A} (k : str) (l : list (str * A)) : list (str * A) :=
   | (k', v') :: l' => if str_eqb k k' then assoc_remove k l' else (k', v') :: assoc_remove k l'
   end.
 
+(* dict.setdefault(k, default) followed by an in-place update *)
+Fixpoint upd {A} (k : str) (f : option A -> A) (l : list (str * A)) : list (str * A) :=
+  match l with
+  | [] => [(k, f None)]
+  | (k', v) :: l' => if str_eqb k k' then (k', f (Some v)) :: l' else (k', v) :: upd k f l'
+  end.
+
+Definition dflt {A} (d : A) (o : option A) : A := match o with Some a => a | None => d end.
+
 Definition keys {A} (l : list (str * A)) : list str := map fst l.
 
 Lemma assoc_set_same {A} k (v : A) l : assoc k (assoc_set k v l) = Some v.
